@@ -291,7 +291,7 @@ def main(argv=None):
     kani_results = {}
     native_results = {}
     kani_cmd = ''
-    need_scratch = (kani_specs or failures or (undecided and P.get('fallback_kani'))) and not args.no_kani
+    need_scratch = (kani_specs or failures or ((undecided or tier == 'thorough') and P.get('fallback_kani'))) and not args.no_kani
     # undecided so far may also come from new, uncontracted functions (coverage guard)
     for u in units:
         r = unit_results[u]
@@ -342,7 +342,7 @@ def main(argv=None):
         # REAL code do not depend on the code's shape: a failing one is a violation with a
         # concrete input; a passing one leaves the check undecided (bounded, never proof).
         fb = [k for k in P.get('fallback_kani', []) if k['harness'] not in kani_results]
-        if undecided and fb and not args.no_kani:
+        if (undecided or tier == 'thorough') and fb and not args.no_kani:
             if scratch is None:
                 try:
                     scratch = kani_run.Scratch(pid).__enter__()
